@@ -20,6 +20,8 @@ LEVEL_TEXT = ('Decides from the source: class identity of the model classes is n
               'The marking algorithm is decided exhaustively for all graphs with up to 3 rules (the quantifier of the property); larger graphs and actual recursion depth are not decided.')
 TECHNIQUE += '; recursive-grammar cases for the nullable computation (termination), rule-include cases for left calls, error condition interpreted with a cycle unreachable from the start rule'
 LEVEL_TEXT += ' Added clauses: is_nullable terminates on recursive rules; a left call through `>rule` is seen; cycles are detected in all rules, not only those reachable from the first rule.'
+TECHNIQUE += '; pegen._is_nullable_safe against the same nullable table incl. nested sequences/choices; an exception raised by the interpreted marking is a finding'
+LEVEL_TEXT += " Added clause: the analysis' own nullable helper agrees with the table on nested sequences and choices."
 LEVEL_NOTE = ('CPython: typing.Protocol.__init_subclass__ clears _is_protocol only if every __init_subclass__ before it in the MRO '
               'chains to super(). The nullable table (DESIGN appendix C) is the oracle.')
 EXPLANATION = ('Static analysis of /repo sources, TatSu not imported. Model methods are interpreted by the whitelisted evaluator '
